@@ -100,6 +100,8 @@ type Model struct {
 	BadgeSys map[string]bool    // id -> system flag (fixed at creation)
 	Notes    map[string]*string // id -> about
 	Tickets  map[string]*string // id -> assignee
+	Reviews  map[string]*string // id -> reviewer (a person with staff data)
+	Folders  map[string]*string // id -> parent folder
 	Memos    map[string]*string // id -> topic (a group)
 	Groups   map[string]bool
 	Links    map[pair]bool
@@ -108,7 +110,7 @@ type Model struct {
 
 func NewModel() *Model {
 	return &Model{Depts: map[string]string{}, People: map[string]*MPerson{}, Badges: map[string]string{}, BadgeSys: map[string]bool{},
-		Notes: map[string]*string{}, Tickets: map[string]*string{}, Memos: map[string]*string{}, Groups: map[string]bool{},
+		Notes: map[string]*string{}, Tickets: map[string]*string{}, Reviews: map[string]*string{}, Folders: map[string]*string{}, Memos: map[string]*string{}, Groups: map[string]bool{},
 		Links: map[pair]bool{}, Kudos: map[pair]int{}}
 }
 
@@ -152,6 +154,12 @@ func (m *Model) Clone() *Model {
 	}
 	for k, v := range m.Tickets {
 		r.Tickets[k] = cloneStrP(v)
+	}
+	for k, v := range m.Reviews {
+		r.Reviews[k] = cloneStrP(v)
+	}
+	for k, v := range m.Folders {
+		r.Folders[k] = cloneStrP(v)
 	}
 	for k, v := range m.Memos {
 		r.Memos[k] = cloneStrP(v)
@@ -283,6 +291,14 @@ func (m *Model) snapOf(store, id string) string {
 		}
 	case StTickets:
 		if a, ok := m.Tickets[id]; ok {
+			return simpleSnap(store, id, "", a)
+		}
+	case StReviews:
+		if a, ok := m.Reviews[id]; ok {
+			return simpleSnap(store, id, "", a)
+		}
+	case StFolders:
+		if a, ok := m.Folders[id]; ok {
 			return simpleSnap(store, id, "", a)
 		}
 	case StMemos:
@@ -492,6 +508,13 @@ func (m *Model) applyCreate(op Op, now int64) Outcome {
 				}
 			}
 		}
+		if op.S == StPX && op.Memo != "" {
+			for _, o := range m.People {
+				if o.HasPX && o.Memo == op.Memo {
+					a.add("memo-dup", EcDup)
+				}
+			}
+		}
 		if a.bad() {
 			return a.out()
 		}
@@ -534,10 +557,15 @@ func (m *Model) applyCreate(op Op, now int64) Outcome {
 		m.Badges[id] = owner
 		m.BadgeSys[id] = op.IsSys
 		return Outcome{OK: true, Events: []Ev{{StBadges, EvCreate, id, m.snapOf(StBadges, id), false}}}
-	case StNotes, StTickets, StMemos:
+	case StNotes, StTickets, StMemos, StReviews, StFolders:
 		tbl := m.refTable(op.S)
 		if _, ok := tbl[id]; ok {
 			return reject("exists", EcAny)
+		}
+		if op.S == StFolders && strOr(op.Ref) == id {
+			// a folder that is its own parent: whether the target "exists" at that moment is not specified, and a
+			// reference cycle under a cascading delete never terminates; not executed
+			return Outcome{Skipped: true, Why: "folder-cycle"}
 		}
 		if op.Ref != nil && *op.Ref != "" {
 			if !m.refTargetExists(op.S, *op.Ref) {
@@ -703,6 +731,13 @@ func (m *Model) applyUpdate(op Op, now int64) Outcome {
 				}
 			}
 		}
+		if via == StPX && n.Memo != p.Memo && n.Memo != "" {
+			for oid, o := range m.People {
+				if oid != id && o.HasPX && o.Memo == n.Memo {
+					rejAdd("memo-dup", EcDup)
+				}
+			}
+		}
 		if a.bad() {
 			return a.out()
 		}
@@ -748,7 +783,7 @@ func (m *Model) applyUpdate(op Op, now int64) Outcome {
 		}
 		m.Badges[id] = owner
 		return Outcome{OK: true, Events: []Ev{{StBadges, EvUpdate, id, m.snapOf(StBadges, id), false}}}
-	case StNotes, StTickets, StMemos:
+	case StNotes, StTickets, StMemos, StReviews, StFolders:
 		tbl, field := m.refTable(op.S), refField(op.S)
 		cur, ok := tbl[id]
 		if !ok {
@@ -757,6 +792,9 @@ func (m *Model) applyUpdate(op Op, now int64) Outcome {
 		ref := cur
 		if op.updates(field) {
 			ref = cloneStrP(op.Ref)
+		}
+		if op.S == StFolders && strOr(ref) != "" && (strOr(ref) == id || m.folderBelow(id, strOr(ref))) {
+			return Outcome{Skipped: true, Why: "folder-cycle"} // would close a reference cycle (see create)
 		}
 		if strOr(ref) != strOr(cur) && strOr(ref) != "" {
 			if !m.refTargetExists(op.S, *ref) {
@@ -815,6 +853,14 @@ func (m *Model) applyDelete(op Op) Outcome {
 		for _, a := range m.Tickets {
 			if a != nil && *a == id {
 				rejAdd("ticket-referenced", EcRefExists)
+				break
+			}
+		}
+		for _, a := range m.Reviews {
+			// (the restrict constraint belongs to the staff store: whichever store the delete goes through, the
+			// entity's staff part is deleted and the constraint must be consulted)
+			if a != nil && *a == id && p.HasStaff {
+				rejAdd("review-referenced", EcRefExists)
 				break
 			}
 		}
@@ -888,7 +934,7 @@ func (m *Model) applyDelete(op Op) Outcome {
 		delete(m.Badges, id)
 		delete(m.BadgeSys, id)
 		return Outcome{OK: true, Events: []Ev{ev}, Deleted: []IdRef{{StBadges, id}}}
-	case StNotes, StTickets, StMemos:
+	case StNotes, StTickets, StMemos, StReviews:
 		tbl := m.refTable(op.S)
 		if _, ok := tbl[id]; !ok {
 			return reject("absent", EcNotFound)
@@ -896,6 +942,31 @@ func (m *Model) applyDelete(op Op) Outcome {
 		ev := Ev{op.S, EvDelete, id, m.snapOf(op.S, id), false}
 		delete(tbl, id)
 		return Outcome{OK: true, Events: []Ev{ev}, Deleted: []IdRef{{op.S, id}}}
+	case StFolders:
+		if _, ok := m.Folders[id]; !ok {
+			return reject("absent", EcNotFound)
+		}
+		// the cascade removes the whole sub-tree
+		out := Outcome{OK: true}
+		doomed := []string{id}
+		for i := 0; i < len(doomed); i++ {
+			var kids []string
+			for fid, par := range m.Folders {
+				if par != nil && *par == doomed[i] {
+					kids = append(kids, fid)
+				}
+			}
+			sort.Strings(kids)
+			doomed = append(doomed, kids...)
+		}
+		for _, fid := range doomed {
+			out.Events = append(out.Events, Ev{StFolders, EvDelete, fid, m.snapOf(StFolders, fid), false})
+			out.Deleted = append(out.Deleted, IdRef{StFolders, fid})
+		}
+		for _, fid := range doomed {
+			delete(m.Folders, fid)
+		}
+		return out
 	case StGroups:
 		if !m.Groups[id] {
 			return reject("absent", EcNotFound)
@@ -947,6 +1018,18 @@ func (m *Model) applyDeleteWhere(op Op) Outcome {
 		}
 	case StTickets:
 		for id, a := range m.Tickets {
+			if a != nil && *a == op.Q {
+				ids = append(ids, id)
+			}
+		}
+	case StReviews:
+		for id, a := range m.Reviews {
+			if a != nil && *a == op.Q {
+				ids = append(ids, id)
+			}
+		}
+	case StFolders:
+		for id, a := range m.Folders {
 			if a != nil && *a == op.Q {
 				ids = append(ids, id)
 			}
@@ -1146,6 +1229,10 @@ func (m *Model) refTable(store string) map[string]*string {
 		return m.Notes
 	case StTickets:
 		return m.Tickets
+	case StReviews:
+		return m.Reviews
+	case StFolders:
+		return m.Folders
 	case StMemos:
 		return m.Memos
 	}
@@ -1153,14 +1240,21 @@ func (m *Model) refTable(store string) map[string]*string {
 }
 
 func refField(store string) string {
-	return map[string]string{StNotes: "about", StTickets: "assignee", StMemos: "topic"}[store]
+	return map[string]string{StNotes: "about", StTickets: "assignee", StMemos: "topic", StReviews: "reviewer", StFolders: "parent"}[store]
 }
 
 func (m *Model) refTargetExists(store, id string) bool {
 	if store == StMemos {
 		return m.Groups[id]
 	}
-	_, ok := m.People[id]
+	if store == StFolders {
+		_, ok := m.Folders[id]
+		return ok
+	}
+	p, ok := m.People[id]
+	if store == StReviews {
+		return ok && p.HasStaff // the referenced store is the staff view
+	}
 	return ok
 }
 
@@ -1170,4 +1264,19 @@ func (m *Model) idInAnyStore(id string) bool {
 	_, b := m.Badges[id]
 	_, n := m.Notes[id]
 	return p || b || n
+}
+
+// folderBelow: folder x lies in the sub-tree of folder root (root's descendants; root itself excluded).
+func (m *Model) folderBelow(root, x string) bool {
+	for hops := 0; hops < 64; hops++ {
+		par, ok := m.Folders[x]
+		if !ok || par == nil || *par == "" {
+			return false
+		}
+		if *par == root {
+			return true
+		}
+		x = *par
+	}
+	return true // (cannot happen: the model never holds a cycle)
 }
